@@ -503,6 +503,158 @@ def entry_cases(ctx):
     return out
 
 
+# ---------------------------------------------------------------------------------------------- id re-use (entry suffix +r)
+def reuses_ids(line):
+    return entry_of(line).endswith("+r")
+
+
+def impl_line_of(line):
+    """What the implementation is sent for `line`.  Lines whose entry ends in `+r` run on a server whose IdProvider hands
+    out the SAME id (ID_BASE) every time; the script (and the model, which numbers subscriptions ID_BASE + handle) names the
+    subscriptions by their distinct ids, so every unsubscribe target >= ID_BASE becomes ID_BASE on the wire."""
+    if not reuses_ids(line):
+        return line
+    out = []
+    for tok in line.split():
+        f = tok.split(",")
+        if f[0] == "uns" and int(f[3]) >= ID_BASE:
+            f[3] = str(ID_BASE)
+            tok = ",".join(f)
+        out.append(tok)
+    return " ".join(out)
+
+
+def rename_by_generation(line, out_text):
+    """Inverse of impl_line_of on the implementation's OUTPUT: per connection the frames are walked in order, the answer
+    to the subscribe call that reached handler h (result `h<h>` of its `sub` step) starts generation h, and every
+    subscription id ID_BASE from there on is rewritten ID_BASE + h.  Sound for the scripts of reuse_family only (a new
+    subscribe on a connection follows only after the previous subscription there is out of the table and closed, so every
+    frame under the shared id belongs to the latest generation); anything else is left to the comparison to expose."""
+    try:
+        out = json.loads(out_text)
+        if json.dumps(out, sort_keys=True, separators=(",", ":")) != out_text:
+            return out_text            # not in the canonical form this function re-creates: compare as is
+        _, _, steps = parse_line(line)
+        gen_of = {}                    # (connection, request id) -> handle
+        for tok, r in zip(steps, out["r"]):
+            f = tok.split(",")
+            if f[0] == "sub" and isinstance(r, str) and r[:1] == "h" and r[1:].isdigit():
+                gen_of[(int(f[1]), int(f[2]))] = int(r[1:])
+        for c, frames in enumerate(out["c"]):
+            cur = None
+            for fr in frames:
+                if not isinstance(fr, dict):
+                    continue
+                if type(fr.get("result")) is int and fr["result"] == ID_BASE and (c, fr.get("id")) in gen_of:
+                    cur = ID_BASE + gen_of[(c, fr["id"])]
+                    fr["result"] = cur
+                elif fr.get("method") is not None and isinstance(fr.get("params"), dict) \
+                        and fr["params"].get("subscription") == ID_BASE and cur is not None:
+                    fr["params"]["subscription"] = cur
+        return json.dumps(out, sort_keys=True, separators=(",", ":"))
+    except Exception:
+        return out_text
+
+
+def run_impl_lines(lines, **kw):
+    ri = vlib.run_lines([impl_bin()], [impl_line_of(l) for l in lines], **kw)
+    return [rename_by_generation(l, a) if reuses_ids(l) else a for l, a in zip(lines, ri)]
+
+
+def reuse_family(rng, n):
+    """Scripts for the `+r` entries: [(line, tag)].  One generation at a time per connection: a connection subscribes
+    again only after its previous subscription was rejected, successfully unsubscribed, or lost its last sink; the sinks
+    of earlier generations stay around and are used / cloned / dropped at any later point (a drop of an OLD generation's
+    last sink must not touch the table entry the NEW generation registered under the same id); unsubscribe names the
+    connection's current generation or an unknown id."""
+    out = []
+    fixed = [
+        "K2 C1 sub,0,1 acc,0 snd,0,0,1 uns,0,2,1000 sub,0,3 acc,1 snd,1,0,2 dr,0,0 snd,1,0,3 isc,1,0 uns,0,4,1001",
+        "K3 C1 sub,0,1 acc,0 cl,0,0,1 uns,0,2,1000 sub,0,3 acc,1 dr,0,0 snd,1,0,1 dr,0,1 snd,1,0,2 isc,1,0 uns,0,4,1001 isc,1,0",
+        "K2 C2 sub,0,1 acc,0 sub,1,2 acc,1 uns,0,3,1000 sub,0,4 acc,2 uns,1,5,1001 dr,0,0 snd,2,0,1 dr,1,0 snd,2,0,2 uns,0,6,1002",
+        "K2 C1 sub,0,1 acc,0 uns,0,2,1000 ret,0,m,1 sub,0,3 acc,1 dr,0,0 snd,1,0,2 ret,1,m,3",
+    ]
+    for e in ("server", "towermw"):
+        out += [(with_entry(l, e + "+r"), "id-reuse:fixed") for l in fixed]
+    for _ in range(n):
+        cap = rng.choice([1, 2, 2, 3])
+        nconns = rng.choice([1, 1, 2])
+        length = rng.choice([8, 12, 18, 26])
+        steps, req, x = [], 0, 0
+        subs = []                      # dict(conn, state P|A|R, sinks set, ret bool)
+        cur = [None] * nconns          # handle of the connection's generation that is pending or in the table
+        latest = [None] * nconns       # handle of the connection's most recent subscribe call
+
+        def live(c):
+            return sum(1 for b in subs if b["conn"] == c and (b["state"] == "P" or b["sinks"]))
+
+        for _ in range(length):
+            acts = []
+            for c in range(nconns):
+                if cur[c] is None and live(c) < cap:
+                    acts += [("sub", c)] * 3
+                acts.append(("unk", c))
+            for h, b in enumerate(subs):
+                if b["state"] == "P":
+                    acts += [("acc", h)] * 3 + [("rej", h)]
+                elif b["state"] == "A":
+                    for k in sorted(b["sinks"])[:2]:
+                        acts += [("snd", h, k), ("isc", h, k), ("dr", h, k), ("dr", h, k)]
+                    if b["sinks"] and len(b["sinks"]) < 3:
+                        acts.append(("cl", h, min(b["sinks"])))
+                    if not b["ret"] and latest[b["conn"]] == h:
+                        # the handler's closing value goes out under the shared id even after an unsubscribe: only the
+                        # connection's LATEST generation returns, so that the frame can be attributed
+                        acts.append(("ret", h))
+                    if cur[b["conn"]] == h:
+                        acts += [("uns", h)] * 3
+            a = rng.choice(acts)
+            if a[0] == "sub":
+                req += 1
+                steps.append("sub,%d,%d" % (a[1], req))
+                subs.append(dict(conn=a[1], state="P", sinks=set(), ret=False))
+                cur[a[1]] = len(subs) - 1
+                latest[a[1]] = len(subs) - 1
+            elif a[0] == "unk":
+                req += 1
+                steps.append("uns,%d,%d,999" % (a[1], req))
+            elif a[0] == "acc":
+                steps.append("acc,%d" % a[1])
+                subs[a[1]]["state"], subs[a[1]]["sinks"] = "A", {0}
+            elif a[0] == "rej":
+                steps.append("rej,%d,7" % a[1])
+                subs[a[1]]["state"] = "R"
+                cur[subs[a[1]]["conn"]] = None
+            elif a[0] == "snd":
+                x += 1
+                steps.append("%s,%d,%d,%d" % (rng.choice(["snd", "snd", "tsnd"]), a[1], a[2], x))
+            elif a[0] == "isc":
+                steps.append("isc,%d,%d" % (a[1], a[2]))
+            elif a[0] == "dr":
+                b = subs[a[1]]
+                steps.append("dr,%d,%d" % (a[1], a[2]))
+                b["sinks"].discard(a[2])
+                if not b["sinks"] and cur[b["conn"]] == a[1]:
+                    cur[b["conn"]] = None
+            elif a[0] == "cl":
+                b = subs[a[1]]
+                k = free_slot(b["sinks"])
+                steps.append("cl,%d,%d,%d" % (a[1], a[2], k))
+                b["sinks"].add(k)
+            elif a[0] == "ret":
+                x += 1
+                subs[a[1]]["ret"] = True
+                steps.append(rng.choice(["ret,%d,m,%d" % (a[1], x), "ret,%d,n,0" % a[1], "ret,%d,e,%d" % (a[1], x)]))
+            elif a[0] == "uns":
+                b = subs[a[1]]
+                req += 1
+                steps.append("uns,%d,%d,%d" % (b["conn"], req, ID_BASE + a[1]))
+                cur[b["conn"]] = None
+        out.append((line_of(cap, nconns, steps, rng.choice(["server+r", "server+r", "tower+r", "towermw+r"])), "id-reuse:random"))
+    return out
+
+
+# ---------------------------------------------------------------------------------------------- generator
 def gen_cases(ctx):
     """Returns [(line, tag)].  Deterministic in ctx.rng."""
     rng = ctx.rng
@@ -538,6 +690,8 @@ def gen_cases(ctx):
                 cases.append((line_of(cap, nconns, steps), "exhaustive-short"))
     # the entry-point dimension (Server::start / tower service), appended last with a generator of its own
     cases += entry_cases(ctx)
+    # subscription ids re-used by the IdProvider (entry suffix +r), own rng so that the other families do not move
+    cases += reuse_family(random.Random(ctx.seed * 7919 + 404), ctx.scale(400, 8000))
     return cases
 
 
@@ -565,7 +719,7 @@ def run_engine(lines, use_cache=True):
                 return d["impl"], d["model"], True
         except Exception:
             pass
-    ri = vlib.run_lines([impl], lines, min_shard=12, timeout=1500)
+    ri = run_impl_lines(lines, min_shard=12, timeout=1500)
     rm = vlib.run_lines([model], lines, min_shard=200)
     if use_cache:
         os.makedirs(vlib.WORK, exist_ok=True)
@@ -583,7 +737,7 @@ def run_engine(lines, use_cache=True):
 
 
 def run_impl(lines):
-    return vlib.run_lines([impl_bin()], lines, min_shard=12, timeout=600)
+    return run_impl_lines(lines, min_shard=12, timeout=600)
 
 
 # ---------------------------------------------------------------------------------------------- direct oracles
@@ -893,7 +1047,11 @@ def replay_case(payload, prop):
     case = payload["case"]
     line = case["line"] if isinstance(case, dict) else case
     print("script:", line)
-    impl = vlib.sh([impl_bin()], input=line + "\n")[1].strip()
+    impl = vlib.sh([impl_bin()], input=impl_line_of(line) + "\n")[1].strip()
+    if reuses_ids(line):
+        print("sent to the implementation:", impl_line_of(line))
+        print("impl (ids as sent)    ->", impl)
+        impl = rename_by_generation(line, impl)
     model = vlib.sh([vlib.model_bin("subhist")], input=line + "\n")[1].strip()
     old = vlib.sh([vlib.model_bin("subhist"), "old"], input=line + "\n")[1].strip()
     print("impl                  ->", impl)
